@@ -63,3 +63,202 @@ def header(tags, arch=0, length=None, magic=HDR_MAGIC, cksum=None, end=True):
 
 def hx(b):
     return "x" + bytes(b).hex()
+
+
+# --------------------------------------------------------------------------
+# boot-information tag kinds (payload encoders; `size` overrides the size field,
+# `exact=True` also cuts/extends the payload to size - 8 so that the following
+# tags stay where the iterator looks for them)
+# --------------------------------------------------------------------------
+T_END, T_CMDLINE, T_BOOTLOADER, T_MODULE, T_BASIC_MEMINFO, T_BOOTDEV, T_MMAP, T_VBE, T_FRAMEBUFFER = range(9)
+T_ELF, T_APM, T_EFI32, T_EFI64, T_SMBIOS, T_ACPI_V1, T_ACPI_V2, T_NETWORK, T_EFI_MMAP, T_EFI_BS = range(9, 19)
+T_EFI32_IH, T_EFI64_IH, T_LOAD_BASE_ADDR = 19, 20, 21
+
+
+def tag_sized(typ, payload, size, fill=0):
+    """tag whose payload is cut/extended (with `fill`) to exactly size - 8 bytes"""
+    n = max(size - 8, 0)
+    payload = (payload + bytes([fill]) * n)[:n]
+    return pad8(u32(typ) + u32(size) + payload, fill)
+
+
+def _t(typ, payload, size=None, exact=False, fill=0):
+    if size is not None and exact:
+        return tag_sized(typ, payload, size, fill)
+    return tag(typ, payload, size, fill)
+
+
+def cstr(s, nul=True):
+    s = s.encode() if isinstance(s, str) else bytes(s)
+    return s + (b"\0" if nul else b"")
+
+
+def t_cmdline(s, nul=True, **kw):
+    return _t(T_CMDLINE, cstr(s, nul), **kw)
+
+
+def t_bootloader(s, nul=True, **kw):
+    return _t(T_BOOTLOADER, cstr(s, nul), **kw)
+
+
+def t_module(start, end, s, nul=True, **kw):
+    return _t(T_MODULE, u32(start) + u32(end) + cstr(s, nul), **kw)
+
+
+def t_basic_meminfo(lower, upper, **kw):
+    return _t(T_BASIC_MEMINFO, u32(lower) + u32(upper), **kw)
+
+
+def t_bootdev(biosdev, slice_, part, **kw):
+    return _t(T_BOOTDEV, u32(biosdev) + u32(slice_) + u32(part), **kw)
+
+
+def mmap_area(base, length, typ, reserved=0):
+    return u64(base) + u64(length) + u32(typ) + u32(reserved)
+
+
+def t_mmap(areas, entry_size=24, entry_version=0, extra=b"", **kw):
+    return _t(T_MMAP, u32(entry_size) + u32(entry_version) + b"".join(mmap_area(*a) for a in areas) + extra, **kw)
+
+
+def vbe_ci(signature=b"VESA", version=0x0300, oem_string_ptr=0, capabilities=0, mode_list_ptr=0, total_memory=0,
+           oem_software_revision=0, oem_vendor_name_ptr=0, oem_product_name_ptr=0, oem_product_revision_ptr=0,
+           reserved=None, oem_data=None):
+    reserved = bytes(222) if reserved is None else reserved
+    oem_data = bytes(256) if oem_data is None else oem_data
+    b = (bytes(signature) + u16(version) + u32(oem_string_ptr) + u32(capabilities) + u32(mode_list_ptr)
+         + u16(total_memory) + u16(oem_software_revision) + u32(oem_vendor_name_ptr) + u32(oem_product_name_ptr)
+         + u32(oem_product_revision_ptr) + reserved + oem_data)
+    assert len(b) == 512
+    return b
+
+
+def vbe_mi(mode_attributes=0, window_a_attributes=0, window_b_attributes=0, window_granularity=0, window_size=0,
+           window_a_segment=0, window_b_segment=0, window_function_ptr=0, pitch=0, resolution=(0, 0),
+           character_size=(0, 0), number_of_planes=0, bpp=0, number_of_banks=0, memory_model=0, bank_size=0,
+           number_of_image_pages=0, reserved0=0, red=(0, 0), green=(0, 0), blue=(0, 0), rsvd=(0, 0),
+           direct_color_attributes=0, framebuffer_base_ptr=0, offscreen_memory_offset=0, offscreen_memory_size=0,
+           reserved1=None):
+    reserved1 = bytes(206) if reserved1 is None else reserved1
+    b = (u16(mode_attributes) + u8(window_a_attributes) + u8(window_b_attributes) + u16(window_granularity)
+         + u16(window_size) + u16(window_a_segment) + u16(window_b_segment) + u32(window_function_ptr) + u16(pitch)
+         + u16(resolution[0]) + u16(resolution[1]) + u8(character_size[0]) + u8(character_size[1])
+         + u8(number_of_planes) + u8(bpp) + u8(number_of_banks) + u8(memory_model) + u8(bank_size)
+         + u8(number_of_image_pages) + u8(reserved0) + u8(red[0]) + u8(red[1]) + u8(green[0]) + u8(green[1])
+         + u8(blue[0]) + u8(blue[1]) + u8(rsvd[0]) + u8(rsvd[1]) + u8(direct_color_attributes)
+         + u32(framebuffer_base_ptr) + u32(offscreen_memory_offset) + u16(offscreen_memory_size) + reserved1)
+    assert len(b) == 256
+    return b
+
+
+def t_vbe(mode=0, interface_segment=0, interface_offset=0, interface_length=0, ci=None, mi=None, **kw):
+    ci = vbe_ci() if ci is None else ci
+    mi = vbe_mi() if mi is None else mi
+    return _t(T_VBE, u16(mode) + u16(interface_segment) + u16(interface_offset) + u16(interface_length) + ci + mi, **kw)
+
+
+def fb_indexed(colors, num=None):
+    """palette: list of (r, g, b); `num` overrides the colour count"""
+    num = len(colors) if num is None else num
+    return u16(num) + b"".join(bytes(c) for c in colors)
+
+
+def fb_rgb(rp, rs, gp, gs, bp, bs):
+    return bytes([rp, rs, gp, gs, bp, bs])
+
+
+def t_framebuffer(address, pitch, width, height, bpp, fbtype, buf=b"", padding=0, **kw):
+    return _t(T_FRAMEBUFFER, u64(address) + u32(pitch) + u32(width) + u32(height) + u8(bpp) + u8(fbtype)
+              + u16(padding) + buf, **kw)
+
+
+def elf32_entry(name=0, typ=1, flags=0, addr=0, offset=0, size=0, link=0, info=0, addralign=0, entsize=0):
+    return b"".join(u32(x) for x in (name, typ, flags, addr, offset, size, link, info, addralign, entsize))
+
+
+def elf64_entry(name=0, typ=1, flags=0, addr=0, offset=0, size=0, link=0, info=0, addralign=0, entsize=0):
+    return (u32(name) + u32(typ) + u64(flags) + u64(addr) + u64(offset) + u64(size) + u32(link) + u32(info)
+            + u64(addralign) + u64(entsize))
+
+
+def t_elf(num, entsize, shndx, table=b"", **kw):
+    return _t(T_ELF, u32(num) + u32(entsize) + u32(shndx) + table, **kw)
+
+
+def t_apm(version=0, cseg=0, offset=0, cseg_16=0, dseg=0, flags=0, cseg_len=0, cseg_16_len=0, dseg_len=0, **kw):
+    return _t(T_APM, u16(version) + u16(cseg) + u32(offset) + u16(cseg_16) + u16(dseg) + u16(flags) + u16(cseg_len)
+              + u16(cseg_16_len) + u16(dseg_len), **kw)
+
+
+def t_efi32(pointer, **kw):
+    return _t(T_EFI32, u32(pointer), **kw)
+
+
+def t_efi64(pointer, **kw):
+    return _t(T_EFI64, u64(pointer), **kw)
+
+
+def t_efi32_ih(pointer, **kw):
+    return _t(T_EFI32_IH, u32(pointer), **kw)
+
+
+def t_efi64_ih(pointer, **kw):
+    return _t(T_EFI64_IH, u64(pointer), **kw)
+
+
+def t_smbios(major, minor, tables=b"", reserved=None, **kw):
+    reserved = bytes(6) if reserved is None else reserved
+    return _t(T_SMBIOS, u8(major) + u8(minor) + reserved + tables, **kw)
+
+
+def sum8(b):
+    return sum(b) & 0xFF
+
+
+def rsdp_v1(signature=b"RSD PTR ", oem_id=b"OEMID ", revision=0, rsdt_address=0, checksum=None):
+    """20 bytes; checksum None: computed so that the sum is 0"""
+    body = bytes(signature) + u8(0) + bytes(oem_id) + u8(revision) + u32(rsdt_address)
+    assert len(body) == 20
+    ck = (-sum8(body)) & 0xFF if checksum is None else checksum
+    return body[:8] + u8(ck) + body[9:]
+
+
+def rsdp_v2(signature=b"RSD PTR ", oem_id=b"OEMID ", revision=2, rsdt_address=0, length=36, xsdt_address=0,
+            checksum=None, ext_checksum=None, reserved=b"\0\0\0"):
+    """36 bytes; ext_checksum None: computed over the first min(length, 36) bytes"""
+    v1 = rsdp_v1(signature, oem_id, revision, rsdt_address, checksum)
+    body = v1 + u32(length) + u64(xsdt_address) + u8(0) + bytes(reserved)
+    assert len(body) == 36
+    if ext_checksum is None:
+        n = min(length, 36)
+        ext_checksum = (-sum8(body[:n])) & 0xFF if n > 32 else 0
+    return body[:32] + u8(ext_checksum) + body[33:]
+
+
+def t_acpi_v1(rsdp=None, **kw):
+    return _t(T_ACPI_V1, rsdp_v1() if rsdp is None else rsdp, **kw)
+
+
+def t_acpi_v2(rsdp=None, **kw):
+    return _t(T_ACPI_V2, rsdp_v2() if rsdp is None else rsdp, **kw)
+
+
+def t_network(dhcpack=b"", **kw):
+    return _t(T_NETWORK, bytes(dhcpack), **kw)
+
+
+def efi_desc(ty=7, phys=0, virt=0, pages=0, att=0, desc_size=40, pad=0, fill=0):
+    b = u32(ty) + u32(pad) + u64(phys) + u64(virt) + u64(pages) + u64(att)
+    return (b + bytes([fill]) * max(desc_size - 40, 0))[:max(desc_size, 0)] if desc_size != 40 else b
+
+
+def t_efi_mmap(desc_size=40, desc_version=1, data=b"", **kw):
+    return _t(T_EFI_MMAP, u32(desc_size) + u32(desc_version) + data, **kw)
+
+
+def t_efi_bs(**kw):
+    return _t(T_EFI_BS, b"", **kw)
+
+
+def t_load_base_addr(addr, **kw):
+    return _t(T_LOAD_BASE_ADDR, u32(addr), **kw)
